@@ -483,9 +483,13 @@ def _pkg_deps(rnd, names, profile, density, own=None, ver=None, slot=None):
     cyclic = profile == "mono-cyclic"
     if cyclic:
         n = _w(rnd, [(1, 3), (2, 4), (3, 2)])
+    elif profile == "mono-slots":
+        n = _w(rnd, [(1, 4), (2, 4), (3, 1)])
+    elif profile == "mono-sparse":
+        n = _w(rnd, [(0, 5), (1, 4), (2, 1)])
     deps = {}
     for _ in range(n):
-        if cyclic:
+        if cyclic or profile == "mono-slots":
             cls = _w(rnd, [("DEPEND", 4), ("BDEPEND", 2), ("RDEPEND", 3), ("IDEPEND", 1), ("PDEPEND", 1)])
         elif profile.startswith("mono"):
             cls = _w(rnd, [("RDEPEND", 4), ("PDEPEND", 2), ("DEPEND", 2), ("BDEPEND", 1), ("IDEPEND", 1)])
@@ -519,10 +523,13 @@ def gen_world(seed: int, profile="full", max_pkgs=12):
     and a DEPEND/BDEPEND/RDEPEND/IDEPEND clause always has an alternative on a higher-ranked name, so cycles exist
     only through PDEPEND or through extra any-of alternatives pointing back (the resolver accepts cycles only under
     context-dependent conditions; with a forward alternative in every clause it can always get out of one).
-    profile 'mono-cyclic': the same rules with more build-time clauses and more back-pointing alternatives."""
+    Slot-1 versions may build-depend on slot 0 of their own name; blockers exist but match no package at all.
+    profile 'mono-cyclic': the same rules with more build-time clauses and back-pointing alternatives;
+    'mono-slots': mostly multi-slot names, cross-slot build deps, slot-qualified deps, little installed;
+    'mono-sparse': few dependencies (independent targets), more inert blockers."""
     rnd = random.Random(seed)
     nnames = rnd.randint(1, 5) if rnd.randrange(8) == 0 else rnd.randint(2, 5)
-    if profile == "mono-cyclic":
+    if profile in ("mono-cyclic", "mono-slots", "mono-sparse"):
         nnames = rnd.randint(4, 5)
     names = list(NAMES[:nnames])
     density = rnd.randrange(4) != 0
@@ -530,8 +537,8 @@ def gen_world(seed: int, profile="full", max_pkgs=12):
     total = 0
     two_src = rnd.randrange(6) == 0
     for key in names:
-        multislot = rnd.randrange(4) == 0
-        nv = _w(rnd, [(1, 6), (2, 3), (3, 1)]) if profile == "mono-cyclic" else _w(rnd, [(1, 3), (2, 4), (3, 2)])
+        multislot = rnd.randrange(4) < {"mono-cyclic": 2, "mono-slots": 3}.get(profile, 1)
+        nv = _w(rnd, {"mono-cyclic": [(1, 6), (2, 3), (3, 1)], "mono-slots": [(1, 1), (2, 4), (3, 4)]}.get(profile, [(1, 3), (2, 4), (3, 2)]))
         vers = sorted(rnd.sample(VERS, nv))
         slot_of = {v: (rnd.choice(("0", "1")) if multislot else "0") for v in VERS}
         for v in vers:
@@ -545,7 +552,7 @@ def gen_world(seed: int, profile="full", max_pkgs=12):
                 other = src if where is src2 else src2  # same cpv offered by both source repositories
                 other.append({"cpv": d["cpv"], "slot": d["slot"], "deps": _pkg_deps(rnd, names, profile, density, key, v, slot_of[v])})
                 total += 1
-        inst_mode = _w(rnd, [("none", 4), ("one", 5), ("perslot", 2)])
+        inst_mode = _w(rnd, [("none", 7), ("one", 3), ("perslot", 1)] if profile == "mono-slots" else [("none", 4), ("one", 5), ("perslot", 2)])
         if inst_mode != "none" and total < max_pkgs:
             pool = vers if rnd.randrange(4) else list(VERS)
             cnt = min(len(pool), 1 if inst_mode == "one" else 2)
@@ -588,7 +595,55 @@ def gen_world(seed: int, profile="full", max_pkgs=12):
         "verify_vdb": rnd.randrange(3) > 0,
         "group": rnd.randrange(4) == 0,
     }
+    if profile.startswith("mono"):
+        _mono_extras(rnd, repos, names, profile)
     return {"repos": repos, "targets": targets, "resolver": cfg}
+
+
+def _mono_extras(rnd, repos, names, profile):
+    """mono profiles, added last (does not disturb the rest of the world):
+    * cross-slot build dependencies: a slot-1 version needs slot 0 of its own name (`DEPEND="a/p2:0"`, the bootstrap
+      shape); always from the higher to the lower slot, so they cannot form a cycle of their own;
+    * inert blockers: blockers on generated names whose range matches no package of any repository or the installed
+      db - they must not influence anything."""
+    xslot = {"mono-cyclic": 2, "mono-slots": 3}.get(profile, 1)  # of 4
+    btries, bprob = (2, 3) if profile == "mono-sparse" else (1, 1)  # blocker attempts per package, probability of 3
+    qual = 3 if profile == "mono-slots" else 1  # of 6
+    everything = [RPkg(r, d) for r, pkgs in repos.items() for d in pkgs]
+    for r in sorted(repos):
+        for d in repos[r]:
+            key = d["cpv"].rsplit("-", 1)[0]
+            has0 = any(q.key == key and q.slot == "0" for q in everything)
+            if d["slot"] == "1" and rnd.randrange(4) < xslot and (has0 or rnd.randrange(5) == 0):
+                cls = rnd.choice(("DEPEND", "DEPEND", "BDEPEND"))
+                cl = [f"{key}:0"]
+                if cl not in d["deps"].setdefault(cls, []):
+                    d["deps"][cls].append(cl)
+            for _ in range(btries):
+                if r == "vdb" or rnd.randrange(3) >= bprob:
+                    continue
+                k = rnd.choice(names)
+                forms = [f"<{k}-1", f">{k}-4", f"={k}-{rnd.choice(VERS)}", f"{k}:1", f"<{k}-{rnd.choice(VERS)}", f">{k}-{rnd.choice(VERS)}"]
+                rnd.shuffle(forms)
+                for f in forms:
+                    if not any(ratom(f).match(q) for q in everything):
+                        cls = rnd.choice(CLASSES)
+                        b = [rnd.choice(("!", "!", "!!")) + f]
+                        if b not in d["deps"].setdefault(cls, []):
+                            d["deps"][cls].append(b)
+                        break
+            d["deps"] = {c: d["deps"][c] for c in CLASSES if d["deps"].get(c)}
+    # dependencies on a name that has slot-1 versions are often written against that slot
+    slot1 = {q.key for q in everything if q.slot == "1"}
+    for r in sorted(repos):
+        for d in repos[r]:
+            for cls in CLASSES:
+                for cl in d["deps"].get(cls, ()):
+                    for i, a in enumerate(cl):
+                        ra = ratom(a)
+                        if not ra.blocks and not ra.op and ra.slot is None and ra.key in slot1 and rnd.randrange(6) < qual:
+                            if a + ":1" not in cl:
+                                cl[i] = a + ":1"
 
 
 def worlds(profile="full", max_pkgs=12):
